@@ -9,7 +9,7 @@ package criteria_splitting
 //@      let p = floor(real(n) * c.Ratio) in (p < c.Min ? c.Min : (p > c.Max ? c.Max : p))
 
 //@ func (*CriteriaSplitCondition).validate
-//@   property C15 C16 C20 C07 C09
+//@   property C15 C16 C20 C07 C09 C01
 //@   panics_iff [ratio_or_bounds] !(0.0 <= c.Ratio && c.Ratio <= 1.0) || c.Max < c.Min
 
 //@ func (*CriteriaSplitCondition).SplitCriteriaByOrdering
@@ -22,7 +22,7 @@ package criteria_splitting
 //@             && forall k int :: 0 <= k && k < len(*result.Right) ==> (*result.Right)[k] == (*sortedCriteria)[pivot(len(*sortedCriteria), *c) + k]
 //@   ensures [pivot_range] 0 <= pivot(len(*sortedCriteria), *c) && pivot(len(*sortedCriteria), *c) <= len(*sortedCriteria)
 
-//@ lemma [C15 C16] pivot_is_clamped_floor: forall n int, c CriteriaSplitCondition
+//@ lemma [C16] pivot_is_clamped_floor: forall n int, c CriteriaSplitCondition
 //@   requires n >= 0 && 0.0 <= c.Ratio && c.Ratio <= 1.0 && c.Min <= c.Max
 //@   ensures  c.Min <= pivot(n, c) && pivot(n, c) <= c.Max
 //@   ensures  (c.Min <= floor(real(n) * c.Ratio) && floor(real(n) * c.Ratio) <= c.Max) ==> pivot(n, c) == floor(real(n) * c.Ratio)
@@ -30,7 +30,7 @@ package criteria_splitting
 
 // Parse: every bound is what the request says; an absent max means no upper bound, an absent min / ratio means 0
 //@ func Parse
-//@   property C15 C16 C20 C07 C09
+//@   property C15 C16 C20 C07 C09 C01
 //@   ensures [as_requested_defaults_for_absent_keys] fresh(result)
 //@             && result.Max == (decoded_has(*props, "Max") ? decoded_int(*props, "Max") : 9223372036854775807)
 //@             && result.Min == (decoded_has(*props, "Min") ? decoded_int(*props, "Min") : 0)
@@ -42,3 +42,4 @@ package criteria_splitting
 //@ wire CriteriaSplitCondition
 //@   property C01 C15 C16 C20
 //@   json Ratio=ratio Min=min Max=max
+//@   gotypes Ratio=float64 Min=int Max=int
